@@ -205,6 +205,16 @@ def call_real(case):
             paths.append(p)
         arg = paths[0] if len(paths) == 1 and case["style"]["fmt"] == 0 else (tuple(paths) if case["style"]["ns"] else list(paths))
         try:
+            if case["style"].get("variant", 0) % 4 == 1:
+                # an earlier call of the same process that excluded a score from the features (its result is not judged):
+                # nothing of it may carry over into the next call
+                try:
+                    names = sorted({n for f in case["files"] for run in f["runs"] for sp in run["spectra"] for h in sp["hits"]
+                                    for n, _ in h["scores"]})
+                    if names:
+                        mokapot.read_pepxml(arg, decoy_prefix=case["prefix"], exclude_features=names[0], to_df=True)
+                except Exception:
+                    pass
             df = mokapot.read_pepxml(arg, decoy_prefix=case["prefix"], to_df=True)
         except Exception as e:          # an event, judged by the acceptor
             tr["raised"] = type(e).__name__
